@@ -18,7 +18,8 @@ def cli_compose(rep, b, ch, ldns, rng):
     execs = []
     tool = b.tool("dadd")
     combos = [((3, "mo"), (-1, "mo")), ((1, "mo"), (1, "mo")), ((-13, "mo"), (1, "y")), ((1, "y"), (5, "y")), ((4, "y"), (-4, "y")),
-              ((1, "y"), (3, "mo")), ((-1, "y"), (-27, "y")), ((11, "mo"), (1, "mo")), ((1, "q"), (3, "q"))]
+              ((1, "y"), (3, "mo")), ((-1, "y"), (-27, "y")), ((11, "mo"), (1, "mo")), ((1, "q"), (3, "q")),
+              ((-1, "mo"), (2, "mo")), ((-1, "y"), (5, "y")), ((-2, "q"), (1, "q")), ((-1, "mo"), (13, "mo"))]
     nrun = 0
     for kind in ("ymd",):
         for (a, ua), (bb, ub) in combos:
@@ -31,14 +32,19 @@ def cli_compose(rep, b, ch, ldns, rng):
                 if 1602 <= y <= 4094:
                     rows.append((r, y, m, min(r[3], mlen(y, m))))
             inp = "".join(cc.fmt_row(kind, r) + "\n" for r, _, _, _ in rows)
-            rc, lines, err = cc.tool_lines(tool, ["%+d%s" % (a, ua), "%+d%s" % (bb, ub)], inp)
-            nrun += 1
-            if len(lines) != len(rows):
-                rep.disagree("cli dadd %+d%s %+d%s: %d lines for %d inputs" % (a, ua, bb, ub, len(lines), len(rows)), {"stderr": err[:200]})
-                continue
-            for (r, y, m, d), got in zip(rows, lines):
-                execs.append([{"e": "Reset", "y": y, "m": m, "d": d},
-                              {"e": "Txt", "src": "dadd %+d%s %+d%s" % (a, ua, bb, ub), "in": cc.fmt_row(kind, r), "txt": {"F": got}}])
+            # positive counts written with and without their plus sign (a sign belongs to its own argument only)
+            for plus in ("+", ""):
+                t1, t2 = ("%s%d%s" % (plus if a > 0 else "", a, ua), "%s%d%s" % (plus if bb > 0 else "", bb, ub))
+                if plus == "" and a < 0 and bb < 0:
+                    continue
+                rc, lines, err = cc.tool_lines(tool, ["--", t1, t2] if t1.startswith("-") else [t1, t2], inp)
+                nrun += 1
+                if len(lines) != len(rows):
+                    rep.disagree("cli dadd %s %s: %d lines for %d inputs" % (t1, t2, len(lines), len(rows)), {"stderr": err[:200]})
+                    continue
+                for (r, y, m, d), got in zip(rows, lines):
+                    execs.append([{"e": "Reset", "y": y, "m": m, "d": d},
+                                  {"e": "Txt", "src": "dadd %s %s" % (t1, t2), "in": cc.fmt_row(kind, r), "txt": {"F": got}}])
     rep.notes["tool_runs"] = rep.notes.get("tool_runs", 0) + nrun
     return execs
 
